@@ -20,7 +20,8 @@ RULE = (
 )
 REQUIRED = ["pairs_checked", "mappings_validated", "maximum_checked", "direction_inverse_checked",
             "first_graph_larger", "optimum_smaller_than_pattern", "disconnected_pairs", "mtg_checked",
-            "noninteger_order_pairs", "disconnected_optimum_beats_edge_bound", "mcs_mol_checked", "reused_matcher_checked"]
+            "noninteger_order_pairs", "disconnected_optimum_beats_edge_bound", "mcs_mol_checked", "reused_matcher_checked",
+            "option_pairs/prune_wc", "wildcard_pruning_flips_size_order", "pairs_with_omitted_default_attributes"]
 ASSUMPTIONS = [
     "common subgraph = common induced subgraph (bond present iff present, equal order), as the statement says",
     "edge orders compared numerically (float equality), node labels by the configured attributes",
@@ -190,6 +191,75 @@ def check_pair(ctx, G1, G2, tag, key, node_attrs=("element",)):
              if (ctx.evaluations < 2 or rng.random() < 0.001) else None)
 
 
+def check_options_pair(ctx, G1, G2, tag, key, node_attrs, prune_wc):
+    """Matcher.MCSMatcher on inputs with wildcard atoms (prune_wc on/off) or with default-valued attributes left out
+    on some atoms.  With prune_wc=True the documented behaviour is: wildcard atoms are removed from both graphs
+    (non-inplace) before the search, mappings refer to the original node ids."""
+    from synkit.Graph.Matcher.mcs_matcher import MCSMatcher as M1
+
+    node_ok, edge_ok = mk_ok(node_attrs)
+    P1, P2 = G1, G2
+    if prune_wc:
+        P1 = G1.subgraph([n for n, d in G1.nodes(data=True) if d.get("element") != "*"]).copy()
+        P2 = G2.subgraph([n for n, d in G2.nodes(data=True) if d.get("element") != "*"]).copy()
+        if (G1.number_of_nodes() <= G2.number_of_nodes()) != (P1.number_of_nodes() <= P2.number_of_nodes()):
+            ctx.count("wildcard_pruning_flips_size_order")
+    wit = {"g1": WG.describe(G1), "g2": WG.describe(G2), "node_attrs": list(node_attrs), "prune_wc": prune_wc}
+    d1, d2 = WG.gdigest(G1), WG.gdigest(G2)
+    opt = optimum(P1, P2, node_ok, edge_ok) if min(len(P1), len(P2)) else 0
+    defaults = ["*" if k == "element" else 0 for k in node_attrs]
+    ctx.count("option_pairs_checked")
+    ctx.count("option_pairs/prune_wc" if prune_wc else "option_pairs/plain")
+    for prune in (False, True):
+        for mcs in (True, False):
+            m = M1(node_attrs=list(node_attrs), node_defaults=defaults, prune_automorphisms=prune, prune_wc=prune_wc)
+            m.find_common_subgraph(G1, G2, mcs=mcs)
+            a = m.get_mappings("G1_to_G2")
+            b = m.get_mappings("G2_to_G1")
+            for mp in a:
+                ctx.count("mappings_validated")
+                why = valid(mp, P1, P2, node_ok, edge_ok)
+                if why:
+                    ctx.violation("invalid-mapping", {**wit, "mcs": mcs, "prune": prune},
+                                  f"MCSMatcher(prune_wc={prune_wc}, mcs={mcs}, prune={prune}): G1_to_G2 mapping {mp} is not a common induced subgraph of the "
+                                  f"{'wildcard-free parts of the ' if prune_wc else ''}inputs: {why}")
+                    break
+            for mp in b:
+                why = valid(mp, P2, P1, node_ok, edge_ok)
+                if why:
+                    ctx.violation("invalid-mapping", {**wit, "mcs": mcs, "prune": prune}, f"MCSMatcher(prune_wc={prune_wc}): G2_to_G1 mapping {mp}: {why}")
+                    break
+            if mcs:
+                ctx.count("maximum_checked")
+                sizes = {len(x) for x in a}
+                if (opt == 0 and a) or (opt > 0 and sizes != {opt}):
+                    ctx.violation("not-maximum", {**wit, "prune": prune},
+                                  f"MCSMatcher(prune_wc={prune_wc}, mcs=True, prune={prune}) returned sizes {sorted(sizes)}; the maximum has {opt} atoms")
+            if len(a) != len(b) or any({v: k for k, v in x.items()} != y for x, y in zip(a, b)):
+                ctx.violation("directions-not-inverse", {**wit, "mcs": mcs, "prune": prune}, "G1_to_G2 and G2_to_G1 are not mutually inverse")
+    if WG.gdigest(G1) != d1 or WG.gdigest(G2) != d2:
+        ctx.violation("input-mutated", wit, "matcher modified an input graph")
+    ctx.case(key, nontrivial=opt >= 2, sample={"space": tag, **wit, "maximum": opt} if ctx.rng.random() < 0.005 else None)
+
+
+def with_wildcards(G, rng, p):
+    H = G.copy()
+    for n, d in H.nodes(data=True):
+        if rng.random() < p:
+            d["element"] = "*"
+    return H
+
+
+def without_default_attrs(G, rng, p=0.5):
+    H = G.copy()
+    k = 0
+    for _, d in H.nodes(data=True):
+        if d.get("charge") == 0 and rng.random() < p:
+            del d["charge"]
+            k += 1
+    return H, k
+
+
 def run(ctx):
     rng = ctx.rng
     nmax = 3 if ctx.quick else 4
@@ -243,8 +313,25 @@ def run(ctx):
         attrs = ("element",) if t % 3 else ("element", "charge")
         check_pair(ctx, A, Bg, "random pairs (planted parts, copies, disconnected, aromatic orders)",
                    ("rnd", WG.describe(A), WG.describe(Bg), attrs), node_attrs=attrs)
+        if t % 2 == 0:
+            # wildcard atoms (more of them in the smaller graph, so that pruning can flip which graph is the pattern)
+            small_first = A.number_of_nodes() <= Bg.number_of_nodes()
+            Aw = with_wildcards(A, rng, 0.15 if small_first else 0.45)
+            Bw = with_wildcards(Bg, rng, 0.45 if small_first else 0.15)
+            for pw in (True, False):
+                check_options_pair(ctx, Aw, Bw, "random pairs with wildcard atoms", ("wc", repr(WG.describe(Aw)), repr(WG.describe(Bw)), attrs, pw), attrs, pw)
+        else:
+            # default-valued charge written on some atoms and left out on others (same input by the matcher's defaults)
+            As, ka = without_default_attrs(A, rng, rng.choice([0.3, 1.0]))
+            Bs, kb = without_default_attrs(Bg, rng, rng.choice([0.0, 0.3]))
+            if ka + kb:
+                ctx.count("pairs_with_omitted_default_attributes")
+                check_options_pair(ctx, As, Bs, "random pairs with default-valued attributes omitted on some atoms",
+                                   ("sparse", repr(WG.describe(As)), repr(WG.describe(Bs))), ("element", "charge"), False)
 
 
 def replay(ctx, v):
     w = v["witness"]
+    if "prune_wc" in w:
+        return check_options_pair(ctx, WG.from_desc(w["g1"]), WG.from_desc(w["g2"]), "replay", ("replay",), tuple(w["node_attrs"]), bool(w["prune_wc"]))
     check_pair(ctx, WG.from_desc(w["g1"]), WG.from_desc(w["g2"]), "replay", ("replay",), node_attrs=tuple(w.get("node_attrs") or ("element",)))
